@@ -360,7 +360,9 @@ func c07RoundTrip(e *Env, rig *Rig, last *Probe) {
 		rig.Ch.Write([]byte{0x77, 0x78})
 		rig.Conn.Feed([]byte{0x55})
 		// (wait until the first message left the queue: a full non-blocking queue may refuse the second one)
-		for i := 0; i < 200 && len(rig.Conn.Wire) < wire0+2; i++ {
+		// (the scheduler may keep picking this task for up to 200 consecutive steps before its fairness rule lets the
+		// freshly submitted sender task run: wait well beyond that)
+		for i := 0; i < 3000 && len(rig.Conn.Wire) < wire0+2; i++ {
 			e.Step()
 		}
 		// a message that reaches the head as a plain io.Reader must still get through as well
